@@ -12,6 +12,7 @@ import (
 	"reflect"
 	"regexp"
 	"runtime/debug"
+	"strings"
 	"time"
 
 	"github.com/NethermindEth/juno/consensus/starknet"
@@ -297,14 +298,23 @@ func Guarded[T any](d time.Duration, f func() T) (res T, panicMsg string, hung b
 	}
 }
 
-var junoFrame = regexp.MustCompile(`github.com/NethermindEth/juno/[^\s(]+`)
+var (
+	junoFrame = regexp.MustCompile(`github.com/NethermindEth/juno/[^\n]*`)
+	generics  = regexp.MustCompile(`\[[^\]]*\]`)
+)
 
-// CrashSite names the first juno function on a recovered panic's stack.
+// CrashSite names the first juno function on a recovered panic's stack
+// (e.g. consensus/tendermint.(*stateMachine).doSkipRound).
 func CrashSite(msg string) string {
-	if m := junoFrame.FindString(msg); m != "" {
-		return m
+	m := junoFrame.FindString(msg)
+	if m == "" {
+		return "unknown"
 	}
-	return "unknown"
+	if i := strings.LastIndex(m, "("); i > 0 {
+		m = m[:i]
+	}
+	m = generics.ReplaceAllString(m, "")
+	return strings.TrimPrefix(m, "github.com/NethermindEth/juno/")
 }
 
 // WalAct projects a WAL entry (as it would be encoded NOW) into the model's wal_* action.
